@@ -234,3 +234,50 @@ impl ResourceAllocator {
         }
     }
 }
+
+#[cfg(feature = "verif")]
+impl ResourceAllocator {
+    /// Verification hook (read-only): the resource pools.
+    pub(crate) fn verif_pools(&self) -> &[ResourcePool] {
+        &self.pools
+    }
+
+    /// Verification hook (read-only): the admission summary.
+    pub(crate) fn verif_free(&self) -> &ConciseFreeResources {
+        &self.free_resources
+    }
+
+    /// Verification hook (read-only): the answer of `group_solver` for the coupled entries of
+    /// `request` (selected exactly as in `claim_resources`), on the current free resources or
+    /// (`on_all`) on the resources of the empty worker.  Returns the coupled resource ids, and the
+    /// solver's group sets with the objective value (None = solver found no solution).
+    #[allow(clippy::type_complexity)]
+    pub(crate) fn verif_group_solve(
+        &self,
+        request: &ResourceRequest,
+        on_all: bool,
+    ) -> (Vec<u32>, Option<(Vec<Vec<usize>>, f64)>) {
+        let coupling: Vec<&ResourceAllocRequest> = request
+            .entries()
+            .iter()
+            .filter(|entry| {
+                matches!(
+                    self.pools.get(entry.resource_id),
+                    Some(ResourcePool::Groups(_))
+                ) && entry.request.is_relevant_for_coupling()
+            })
+            .collect();
+        let ids = coupling.iter().map(|e| e.resource_id.as_num()).collect();
+        if coupling.is_empty() {
+            return (ids, None);
+        }
+        let free = if on_all {
+            &self.static_info.all_resources
+        } else {
+            &self.free_resources
+        };
+        let r = group_solver(free, &coupling, &self.static_info.coupling_weights)
+            .map(|(gs, obj)| (gs.into_iter().map(|g| g.into_vec()).collect(), obj));
+        (ids, r)
+    }
+}
